@@ -8,7 +8,7 @@
 (*            manager holds / lists, read from the manager itself)                                    *)
 (*   Fetch    the fetch job ran (out, doc; asked = the source was really asked)                        *)
 (*   Act      a validator became active (route); now = what the manager lists afterwards               *)
-(*   Round    the registration job ran: vs = the accounts the manager listed to it, regs = what the     *)
+(*   Round    the registration job ran (via job) or SubmitValidatorRegistrations was called (via api): vs = the accounts the manager listed to it, regs = what the     *)
 (*            relay servers received <<v, relay, fee, gas>>, sigok = every signature verifies with the  *)
 (*            validator's key over exactly the message, nodes = what the secondary nodes received       *)
 (*   Prep     the preparer ran: vs likewise, preps = <<node, v, fee>> received                         *)
@@ -54,7 +54,7 @@ TraceRound ==
     /\ IsEvent("Round")
     /\ NoDup(Line.regs)                                       \* one registration per validator and relay
     /\ \A x \in SeqToSet(Line.regs) : x[1] \in SeqToSet(Line.vs)
-    /\ RecRound(SeqToSet(Line.vs),
+    /\ RecRound(Line.via, SeqToSet(Line.vs),
                 [v \in SeqToSet(Line.vs) |-> {<<x[2], x[3], x[4]>> : x \in {y \in SeqToSet(Line.regs) : y[1] = v}}],
                 Line.sigok,
                 {<<x[1], x[2], x[3]>> : x \in SeqToSet(Line.nodes)})
